@@ -34,18 +34,25 @@ def is_direct_loop_var(t):
 
 
 def ring_relations(prog, body):
-    """find `X = (A +/- off ...) % n` with off a loop variable: returns list of (coef of off, leaves description, line)"""
-    ev = Ev(prog, body)
+    """find `X = (A +/- off ...) % n` with off an iteration variable over a range - the variable of a `for` loop, or the parameter of
+    a closure given to an iterator adaptor (`(0..k).any(|off| ..)`): returns list of (coef of off, leaves description, line)"""
+    from ..shapes import is_range_iter_param
     out = []
-    for i, j, s in body.assigns():
-        rv = s["rv"]
-        if rv["k"] == "bin" and rv["o"] == "Rem":
-            num = ev.operand(rv["a"], (i, j))
-            leaves = addsub_leaves(num)
-            offs = [sg for sg, lf in leaves if is_direct_loop_var(lf)]
-            if len(offs) == 1 and len(leaves) >= 2:
-                others = [(sg, show(lf)[:40]) for sg, lf in leaves if not is_direct_loop_var(lf)]
-                out.append((offs[0], others, s["line"], leaves))
+    for b in prog.family(body.root or body.path):
+        ev = Ev(prog, b)
+
+        def is_off(lf, b=b):
+            return is_direct_loop_var(lf) or is_range_iter_param(prog, b, lf)
+
+        for i, j, s in b.assigns():
+            rv = s["rv"]
+            if rv["k"] == "bin" and rv["o"] == "Rem":
+                num = ev.operand(rv["a"], (i, j))
+                leaves = addsub_leaves(num)
+                offs = [sg for sg, lf in leaves if is_off(lf)]
+                if len(offs) == 1 and len(leaves) >= 2:
+                    others = [(sg, show(resolve_upvars(prog, lf, b))[:40]) for sg, lf in leaves if not is_off(lf)]
+                    out.append((offs[0], others, s["line"], leaves))
     return out
 
 
@@ -117,18 +124,26 @@ def run(chk, facts_dir, tier):
         chk.fail("R13.2", CFG + "assigned_buckets", "ring-direction", "storage solves `primary = node %s offset` (so node = primary %s offset) but routing places replicas at `primary %s offset`: "
                  "for 1 < rf < N a node opens the buckets of its successors while it is routed the buckets of its predecessors" %
                  ("+" if rs[0][0] > 0 else "-", "+" if s_storage > 0 else "-", "+" if s_own > 0 else "-"), sb, rs[0][2])
-    # effective replication factor is min(rf, N) on all three sides
+    # effective replication factor is min(rf, N) on all three sides: some value in the function is the minimum (call, if/else select or
+    # private helper) of a replication-factor value and a node-count value
+    from ..shapes import min_parts
     for b in (sb, ta, tr):
         ev = Ev(prog, b)
-        mins = [t for bi, t in b.calls() if (b.callee_decl(t) or "").endswith("::min")]
         good = False
-        for t in mins:
-            a0 = show(ev.operand(t["args"][0], (0, "T"))) + show(ev.operand(t["args"][1], (0, "T")))
+        cands = []
         for bi, t in b.calls():
-            if (b.callee_decl(t) or "").endswith("::min"):
-                txt = show(ev.operand(t["args"][0], (bi, "T"))) + " " + show(ev.operand(t["args"][1], (bi, "T")))
-                if ("replication" in txt or "factor" in txt) and ("node_count" in txt):
-                    good = True
+            cands.append(("call", b.callee_decl(t) or "", tuple(ev.operand(a, (bi, "T")) for a in t["args"]), bi, b.path))
+        for L, defs in b.defs.items():
+            ds = [d for d in defs if not d[2]["p"]]
+            if len(ds) == 2:
+                cands.append(("phi", tuple(ev._rvalue(d[3], (d[0], d[1]), 0) for d in ds)))
+        for cand in cands:
+            mp = min_parts(prog, b, ev, cand)
+            if mp is None:
+                continue
+            txt = show(mp[0]) + " " + show(mp[1])
+            if ("replication" in txt or "factor" in txt) and ("node_count" in txt):
+                good = True
         if good:
             chk.ok("R13.2", "%s bounds the ring walk by min(rf, N)" % b.path.split("::")[-1], b.where())
         else:
